@@ -6,6 +6,7 @@ import GontainerModel.Lemmas.EscapeTokens
 import GontainerModel.Lemmas.GoQuote
 import GontainerModel.Model.Token
 import GontainerModel.Lemmas.TokenClass
+import GontainerModel.Lemmas.SimpleFn
 import GontainerModel.Model.Runtime
 import GontainerModel.Generated.Regex
 import GontainerModel.Generated.Wiring
@@ -133,6 +134,17 @@ theorem token_classification (fns : List Token.FnDef) (chunk : String) :
     (Token.chain fns).find? (Token.supports · chunk) = some (Token.classify fns chunk) :=
   Token.chain_find fns chunk
 
+/-- **`%fn(args)%`: the function name and the argument text the tool extracts are the ones written** — for every expression
+between the delimiters, the leftmost-first backtracking match of the regenerated expression `regexSimpleFn` (what
+`regex.Match` computes: groups `fn` and `params`) succeeds iff the expression is `Ident(…)` with no line break between the
+parentheses, and then `fn` is the identifier and `params` is the text between the first `(` and the closing `)` that ends
+the expression (so `)` and `(` inside the arguments belong to the arguments) -/
+theorem function_token_extraction (e : List Char) :
+    Re.captures Generated.re_token_regexSimpleFn e =
+      (Grammar.parseSimpleFn e).map fun fp => [("fn", fp.1), ("params", fp.2)] := by
+  rw [pin_regexSimpleFn.1]
+  exact Grammar.captures_simpleFn e
+
 /-- **build-time rejection, exactly**: a balanced pattern is tokenised successfully iff none of its chunks is an
 unknown-function or malformed token; every chunk is looked at (no early exit) -/
 theorem build_rejects_exactly (fns : List Token.FnDef) (st : Imports.St) (s : String) (cs : List (List Char))
@@ -201,5 +213,9 @@ example : Escape.escape ['5', '0', '%', ' ', 'o', 'f', 'f'] = ['5', '0', '%', '%
 example : chunks ['%','a','%',' ','b','%','%','c'] = some [['%','a','%'],[' ','b'],['%','%'],['c']] := by decide
 example : chunks ['%','a',' ','b'] = none := by decide
 example : (chunks ['a','%','%']).isSome ∧ ['a','%','%'] ≠ [] := by decide
+
+example : Grammar.parseSimpleFn ['e','n','v','(','"','A','"',',',' ','f','(','1',')',')'] = some (['e','n','v'], ['"','A','"',',',' ','f','(','1',')']) := by decide
+example : Grammar.parseSimpleFn ['e','n','v','(','\n',')'] = none := by decide
+example : Grammar.parseSimpleFn ['1','f','(',')'] = none := by decide
 
 end GM.C03
